@@ -512,7 +512,17 @@ class Session:
             out.real = self._call(len, tgt)
         elif kind == "iter":
             out.exp = [p.canon() for p in mdl.all(m if via_h else None, False)]
-            out.real = self._norm_pts(self._call(list, tgt))
+            form = op.get("iter_form")
+            if form == "abandoned-first":
+                # an iteration that is given up after the first point, then a complete one: a new iteration starts over
+                def run(tgt=tgt):
+                    for _ in tgt:
+                        break
+                    return [p_ for p_ in tgt]
+
+                out.real = self._norm_pts(self._call(run))
+            else:
+                out.real = self._norm_pts(self._call(list, tgt))
         elif kind == "get_measurements":
             out.exp = mdl.get_measurements()
             out.real = self._call(self.db.get_measurements)
